@@ -19,4 +19,5 @@
 #include "UriRecompose.c"
 #include "UriResolve.c"
 #include "UriShorten.c"
+#include "vmemcpy.h"
 #endif
